@@ -108,24 +108,24 @@ impl Debug for Record<'_> {
 }
 
 /// Splits compressed LDM record data into individual records. Will omit the record size prefix from
-/// each record.
+/// each record. If the data ends before a record's declared size (or within a size prefix), the
+/// final record holds whatever data remains.
 pub fn split_compressed_records(data: &[u8]) -> Vec<Record> {
     let mut records = Vec::new();
 
-    let mut position = 0;
-    loop {
-        if position >= data.len() {
-            break;
-        }
+    let mut remaining = data;
+    while !remaining.is_empty() {
+        let record_length = remaining.first_chunk::<4>().map(|record_size| {
+            let record_size = i32::from_be_bytes(*record_size).unsigned_abs() as usize;
+            record_size.saturating_add(4)
+        });
 
-        let mut record_size = [0; 4];
-        record_size.copy_from_slice(&data[position..position + 4]);
-        let record_size = i32::from_be_bytes(record_size).unsigned_abs() as usize;
+        let (record, rest) = record_length
+            .and_then(|record_length| remaining.split_at_checked(record_length))
+            .unwrap_or((remaining, &[]));
 
-        records.push(Record::from_slice(
-            &data[position..position + record_size + 4],
-        ));
-        position += record_size + 4;
+        records.push(Record::from_slice(record));
+        remaining = rest;
     }
 
     records
